@@ -246,6 +246,17 @@ class Opaque(Term):
 
 
 @dataclass(frozen=True)
+class GlobalVal(Term):
+    """a module-level mutable container, kept by identity (module, name) with its initial value"""
+    module: str
+    name: str
+    value: Term
+
+    def __repr__(self):
+        return f'global:{self.module}.{self.name}'
+
+
+@dataclass(frozen=True)
 class Raises(Term):
     exc: Term
 
@@ -362,6 +373,8 @@ def walk(t: Term):
         yield from walk(t.body)
     elif isinstance(t, Raises):
         yield from walk(t.exc)
+    elif isinstance(t, GlobalVal):
+        yield from walk(t.value)
     elif isinstance(t, Loop):
         yield from walk(t.iter)
         for e in t.effects:
@@ -567,6 +580,8 @@ class Evaluator:
                 val = self.expr(m2.assigns[n2], st, m2, None, 0)
             finally:
                 self._const_busy.discard(key)
+            if _is_mutable_container(val):
+                val = GlobalVal(m2.name, n2, val)
             self._const_memo[key] = val
             return val
         return Opaque(f'global:{name}')
@@ -1366,6 +1381,22 @@ class Evaluator:
                 names = {x.name for x in c.mro()}
                 return Const(any(t.name in names for t in targets))
         return Call(func, args, kwargs)
+
+
+def _is_mutable_container(v: Term) -> bool:
+    if isinstance(v, TupleT) and v.kind in ('list', 'set'):
+        return True
+    if isinstance(v, DictT):
+        return True
+    if isinstance(v, Comp) and v.kind in ('list', 'set', 'dict'):
+        return True
+    if isinstance(v, Call) and isinstance(v.func, Ext) and v.func.name in ('set', 'list', 'dict', 'collections.defaultdict', 'collections.OrderedDict', 'collections.deque'):
+        return True
+    return False
+
+
+def unglobal(t: Term) -> Term:
+    return t.value if isinstance(t, GlobalVal) else t
 
 
 def guards_repr(gs: Tuple[Guard, ...]) -> str:
